@@ -636,6 +636,20 @@ func TestFaults(t *testing.T) {
 		Case{Files: []File{{Name: "bad.fo", Content: []byte("package main\n\nlet f x = +\n")}, gf}, Args: []string{"@foi", "bad.fo", good.name}, Mutator: []string{"fo-after-failing-fo"}},
 		Case{Files: []File{{Name: "decl.foi", Content: []byte("package_info m =\n  let F: int->int\n")}}, Args: []string{"decl.foi"}, Mutator: []string{"foi-only"}},
 	)
+	// arguments whose name is neither *.fo nor *.foi, next to ordinary ones: whatever fc does with them, the
+	// .fo arguments of the same invocation are still asked for (exit 0 only with their gen files written)
+	helper := []byte("package main\n\nlet helperFn () = 5\n")
+	for _, odd := range []string{"helper.FO", "noext", "x.fo.txt", "dotted.name"} {
+		cases = append(cases,
+			Case{Files: []File{gf, {Name: odd, Content: helper}}, Args: []string{"@foi", good.name, odd}, Mutator: []string{"odd-argument-name-last:" + odd}},
+			Case{Files: []File{gf, {Name: odd, Content: helper}}, Args: []string{"@foi", odd, good.name}, Mutator: []string{"odd-argument-name-first:" + odd}},
+			Case{Files: []File{{Name: odd, Content: []byte("package main\n\nlet f x = +\n")}}, Args: []string{"@foi", odd}, Mutator: []string{"odd-argument-name-broken-content:" + odd}})
+	}
+	cases = append(cases,
+		Case{Files: []File{gf}, Args: []string{"@foi", good.name, ""}, Mutator: []string{"empty-string-argument"}},
+		Case{Files: []File{gf, {Name: "src/keep", Content: []byte("x")}}, Args: []string{"@foi", good.name, "src/"}, Mutator: []string{"directory-argument-with-slash"}},
+		Case{Files: []File{gf}, Args: []string{"@foi", good.name, good.name}, Mutator: []string{"same-file-twice"}},
+	)
 	// the self-referential family, each alone and after a valid program
 	for _, sn := range selfRef {
 		body := "package main\n\n" + sn
